@@ -6,7 +6,7 @@ ID = 'C04'
 LEVEL = 'exploration'
 RULE = ('generated modules in calls mode: 0-4 imported host functions (0-8 mixed-type parameters, 0-1 result) plus env.trace, '
         '4-16 defined functions with 0-8 parameters of interleaved types calling earlier functions and imports directly and '
-        'through call_indirect, bounded recursion templates (factorial, fibonacci, even/odd mutual recursion), a defined or '
+        'through call_indirect, bounded recursion templates (factorial, fibonacci, even/odd mutual recursion; accumulator recursion with declared locals and the recursive call in tail and non-tail positions: each call is a fresh activation), a defined or '
         'imported table filled by 1-4 element segments at constant or imported-global offsets, overlapping (later wins). Oracle = '
         'interpreter result + ordered trace (callee, argument bit patterns, instance tag == calling instance) printed by the '
         'host implementations in the driver; after instantiation every table slot is probed for the identity of the function '
